@@ -14,7 +14,7 @@ from ..common import Check, Mismatch, blame
 PROPERTY = "C03"
 RULE = ("op-list histories (<=25 steps, thorough 40) over <=5 small datasets (half of the histories give some datasets identity or affine "
         "world coordinates, whose own pixel<->world links then take part in every closure): add_link (one-way, two-way with inverse, identity, two-input, "
-        "LinkSame, LinkTwoWay; cycles and diamonds arise; singly, as a list, or by set_links replacing the registry), remove_link (one or a list), add stored/derived component, remove_component, append/remove/"
+        "LinkSame, LinkTwoWay, MultiLink with 1:2 and 2:1 attributes; cycles and diamonds arise; singly, as a list, or by set_links replacing the registry), remove_link (one or a list), add stored/derived component, remove_component, append/remove/"
         "re-append dataset, and bracketed groups inside dc.delay_link_manager_update() or hub.delay_callbacks(). Oracle: link-closure "
         "model (hyper-edges incl. inverses and every dataset's internal links; least-fixpoint depth; admissible value sets along "
         "minimum-depth links; exact arithmetic). Non-trivial = history has a removal followed by an addition and some dataset reads an "
@@ -45,6 +45,8 @@ def fn_apply(f, *args):
         return args[0] - args[1]
     if k == "aff":
         return args[0] * f[1] + f[2]
+    if k == "avg":
+        return (args[0] + args[1]) * 0.5
     raise ValueError(f)
 
 
@@ -78,6 +80,22 @@ def make_callable(f):
     if k == "sub":
         return lambda x, y: x - y
     raise ValueError(f)
+
+
+def _fw12(x):
+    return x + 1.0, x - 1.0
+
+
+def _bw12(p, q):
+    return (p + q) * 0.5
+
+
+def _fw21(x, y):
+    return x + y
+
+
+def _bw21(s_):
+    return s_ * 0.5, s_ * 0.5
 
 
 class Model:
@@ -288,6 +306,21 @@ class World:
             g = ["shift", 2.0]          # deliberately NOT the inverse of f: non-commuting system
             link = LinkTwoWay(ca, cb, make_callable(f), make_callable(g))
             edges = [([a], b, f), ([b], a, g)]
+        elif kind in ("multi12", "multi21"):
+            # a MultiLink with one attribute on one side and two on the other (functions returning / taking tuples)
+            from glue.core.link_helpers import MultiLink
+            side2 = b if kind == "multi12" else a
+            ds = [d for d in self.model.live() if d["name"] == side2.split(".")[0]]
+            names = [n for n in self.model.own_names(ds[0]) if n != side2] if ds else []
+            if not names:
+                return None
+            other = names[len(side2) % len(names)]
+            if kind == "multi12":      # a -> (b, other) ; (b, other) -> a
+                link = MultiLink([ca], [cb, self.cid[other]], forwards=_fw12, backwards=_bw12)
+                edges = [([a], b, ["shift", 1.0]), ([a], other, ["shift", -1.0]), ([b, other], a, ["avg"])]
+            else:                      # (a, other) -> b ; b -> (a, other)
+                link = MultiLink([ca, self.cid[other]], [cb], forwards=_fw21, backwards=_bw21)
+                edges = [([a, other], b, ["add"]), ([b], a, ["scale", -1]), ([b], other, ["scale", -1])]
         else:
             raise ValueError(kind)
         mentions = set()
@@ -525,7 +558,7 @@ fn_spec = st.one_of(st.tuples(st.just("shift"), st.sampled_from([1.0, -2.0, 0.5]
                     st.tuples(st.just("scale"), st.sampled_from([1, -1, 2])), st.tuples(st.just("add")), st.tuples(st.just("sub")),
                     st.tuples(st.just("id"))).map(list)
 idx = st.integers(0, 7)
-KINDS = ["oneway", "twoway", "identity", "two", "linksame", "linktwoway"]
+KINDS = ["oneway", "twoway", "identity", "two", "linksame", "linktwoway", "multi12", "multi21"]
 
 simple_op = st.one_of(
     st.tuples(st.just("link"), st.sampled_from(KINDS), idx, idx, idx, idx, idx, fn_spec),
